@@ -112,4 +112,31 @@ theorem condJzs_ifelse (d n : Nat) (opos : Int) (cond : Node) (addr : Int) (r : 
     simp only [hn, hn2, decide_false, h1, h2, h3, h4, h5, hne, h6, h8, h9, h10, h11, dite_true, bind, Except.bind]
     rfl
 
+/-! ### `exit repeat` (layer F4: the two step lemmas; no induction over programs with exits is proved) -/
+
+/-- exit repeat as the end of a then-branch without else (fixture shape, path "exit repeat in else part" of
+    condition_detect_in_statements): the reconstructed if-list ends with a jump that leaves the loop; it is replaced by an
+    `exit repeat` statement and there is no else part -/
+theorem condJzs_if_exit (d n : Nat) (opos : Int) (cond : Node) (addr e : Int) (rest stmts s1 coll s2 ifl : List Node)
+    (lp jpos jaddr : Int) (hx : addr ≤ e)
+    (h1 : ifScan (.jz opos cond addr) (.ifThen opos cond [] []) opos addr stmts = .ok (s1, coll))
+    (h2 : pyRemoveAll s1 coll = .ok s2) (h3 : breakDetect coll (some e) = .ok coll) (h4 : coll.length < n)
+    (h5 : condDetectD d coll (some e) = .ok ifl) (hne : ifl.isEmpty = false)
+    (h6 : pyGet ifl (-1) = .ok (.stmt lp (.jump jpos jaddr))) (hxe : e < jaddr) :
+    condJzs d n (.jz opos cond addr :: rest) stmts (some e) =
+      condJzs d n rest (finalizeIf opos (.ifThen opos cond (ifl.dropLast ++ [exitRepeatStmt jpos]) []) s2) (some e) := by
+  rw [condJzs.eq_def]
+  have hn : ¬ e < addr := by omega
+  simp only [hn, hxe, decide_false, decide_true, h1, h2, h3, h4, h5, hne, h6, dite_true, bind, Except.bind]
+  rfl
+
+/-- `break_detect_in_statements`: an exit jump as the second-to-last statement of an if- or else-list becomes an `exit repeat`
+    statement before the list is scanned -/
+theorem breakDetect_convert (init : List Node) (p jp ja : Int) (last : Node) (e : Int) (h : e < ja) :
+    breakDetect (init ++ [.stmt p (.jump jp ja), last]) (some e) = .ok (init ++ [exitRepeatStmt jp, last]) := by
+  unfold breakDetect
+  have hl : ¬ (init ++ [Node.stmt p (.jump jp ja), last]).length < 2 := by simp
+  simp only [hl, if_false, List.reverse_append, List.reverse_cons, List.reverse_nil, List.nil_append, List.cons_append, h, if_true,
+    List.reverse_reverse]
+
 end Drx.LinkFlow
